@@ -1,6 +1,7 @@
 """C14 — conversions and completion status report the outcome and never hang (DESIGN §3 C14)."""
 from ..core import (Finding, lang_check, explore, witness, ret_states, down_method, sw_value, interesting_default, node_desc, mentions)
-from ..expr import strip, render
+from ..expr import strip, render, access_path
+from ..core import const_bool
 from .. import roles
 
 ID = 'C14'
@@ -23,6 +24,7 @@ CONTROLS = [
     'R4|<verif_controls::WakeBeforeStore<O> as Observer>::complete',
     'R6|<verif_controls::LossyErrorSink<T, E> as Observer>::error',
     'R7|<verif_controls::EagerFinishedSink<T> as Observer>::is_finished',
+    'R8|<verif_controls::CtlStatus3>::announce',
 ]
 CONTROLS_OK = ['R3|<verif_controls::RegisterThenCheck as Future>::poll']
 
@@ -40,7 +42,7 @@ def _send_ev(n):
 
 
 def check(cx):
-    return r1_r5(cx) + r2(cx) + r3(cx) + r4(cx) + r6(cx) + r7(cx)
+    return r1_r5(cx) + r2(cx) + r3(cx) + r4(cx) + r6(cx) + r7(cx) + r8(cx)
 
 
 def r1_r5(cx):
@@ -143,7 +145,7 @@ def r3(cx):
         def step(st, nd, lab):
             if _tail(nd, 'register'):
                 return 'registered'
-            if _tail(nd, 'load') and nd['kind'] == 'call':
+            if _tail(nd, 'load', 'compare_exchange', 'compare_exchange_weak', 'swap', 'fetch_add', 'fetch_or', 'fetch_and', 'fetch_update') and nd['kind'] == 'call':
                 return 'checked_after_register' if st in ('registered', 'checked_after_register') else 'checked_unregistered'
             if nd['kind'] == 'assign' and not nd['ctx'] and nd['lhs'][0] == 'local' and nd['lhs'][1] == 0 and _is_pending(nd['rhs']):
                 return 'PEND:' + st
@@ -181,7 +183,13 @@ def r4(cx):
                 if _tail(nd, 'wake', 'wake_by_ref') and nd['kind'] == 'call':
                     return ('wake',)
                 return None
-            bad = lang_check(g, 'down store wake', ev, exact=True, empty_ok=False)
+            rmw = [nd for nd in g.nodes if nd['kind'] == 'call' and _tail(nd, 'swap', 'fetch_add', 'fetch_or', 'compare_exchange')]
+            wakes = [nd for nd in g.nodes if nd['kind'] == 'call' and _tail(nd, 'wake', 'wake_by_ref')]
+            handshake = False
+            if rmw and wakes:
+                vals = {strip(nd['value']) for nd in rmw}
+                handshake = any(nd['kind'] == 'switch' and mentions(nd['discr'], lambda x: strip(x) in vals) for nd in g.nodes)
+            bad = lang_check(g, 'down store wake?' if handshake else 'down store wake', ev, exact=True, empty_ok=False)
             res.append(Finding(ID, 'R4', cx.label(fn), not bad,
                                ('status must be published as: downstream terminal, flag store, wake: ' + bad[0]) if bad else 'downstream terminal, then flag store, then wake',
                                fn['span'], bad[1] if bad else None))
@@ -268,4 +276,106 @@ def r7(cx):
                            fn['span'], [node_desc(g, x) for x in other[:3]]))
     if not cx.control and n < 2:
         res.append(Finding(ID, 'R7', 'floor', False, 'conversion sinks not found'))
+    return res
+
+
+_WRITERS = ('store', 'swap', 'compare_exchange', 'compare_exchange_weak', 'fetch_add', 'fetch_sub', 'fetch_or', 'fetch_and', 'fetch_xor', 'fetch_update')
+STATUS = {'ops::complete_status::CompleteStatus': ('ops::complete_status::StatusObserver', ('is_closed', 'is_completed', 'error_occur'))}
+
+
+def _eval_pred(e, c):
+    """value of a predicate expression when every atomic load in it yields the integer c (None = cannot tell)"""
+    from ..core import const_int
+    e = strip(e)
+    if e[0] == 'call' and e[1].rsplit('::', 1)[-1] == 'load':
+        return c
+    if const_int(e) is not None:
+        return const_int(e)
+    if const_bool(e) is not None:
+        return const_bool(e)
+    if e[0] == 'un' and e[1] == 'Not':
+        v = _eval_pred(e[2], c)
+        return None if v is None else (not v)
+    if e[0] == 'bin':
+        a, b = _eval_pred(e[2], c), _eval_pred(e[3], c)
+        if a is None or b is None:
+            return None
+        op = e[1]
+        return {'Eq': a == b, 'Ne': a != b, 'Lt': a < b, 'Le': a <= b, 'Gt': a > b, 'Ge': a >= b, 'BitAnd': a & b if not isinstance(a, bool) else (a and b),
+                'BitOr': a | b if not isinstance(a, bool) else (a or b)}.get(op)
+    return None
+
+
+def r8(cx):
+    """the status flag means 'terminated' for every value its predicates accept; only the terminal methods of the status
+    observer may write such a value. Any other writer (e.g. a waiter announcing itself) must write a value that every
+    predicate still reads as 'running'"""
+    from ..core import const_int
+    F = cx.facts
+    res = []
+    table = {'verif_controls::CtlStatus3': (None, ('closed',))} if cx.control else STATUS
+    n = 0
+    for adt, (obs, preds) in table.items():
+        fields = [f for f, t in roles.adt_fields(cx, adt) if F.tystr(t).startswith('std::sync::atomic::Atomic')]
+        if len(fields) != 1:
+            res.append(Finding(ID, 'R8', 'table:' + adt, False, 'expected exactly one atomic flag field'))
+            continue
+        flag = fields[0]
+        pexpr = {}
+        for fn in F.fns.values():
+            im = F.impl_of_fn(fn)
+            if im is not None and roles.impl_tag(cx, im) == adt and fn.get('name') in preds:
+                g = cx.graph(fn['key'])
+                rets = [x['rhs'] for x in g.nodes if x['kind'] == 'assign' and not x['ctx'] and x['lhs'][0] == 'local' and x['lhs'][1] == 0]
+                if len(rets) == 1:
+                    pexpr[fn['name']] = rets[0]
+        # callers of helper functions
+        callers = {}
+        for fn in F.fns.values():
+            for b in fn['blocks']:
+                t = b['t']
+                if t['k'] == 'call' and t['f']['o'] == 'const' and 'fn' in t['f']:
+                    r = t['f']['fn'].get('res')
+                    if r and r.get('d') in F.fns:
+                        callers.setdefault(r['d'], set()).add(fn['key'])
+
+        def is_terminal(fn, depth=0):
+            im = F.impl_of_fn(fn)
+            if im is not None and im.get('trait') == 'observer::Observer' and roles.impl_tag(cx, im) == obs and fn.get('name') in ('error', 'complete'):
+                return True
+            cs = callers.get(fn['key'])
+            return bool(cs) and depth < 4 and all(is_terminal(F.fns[c], depth + 1) for c in cs)
+        for fn in sorted(F.fns.values(), key=lambda f: f['key']):
+            if fn['kind'] in ('coroutine',):
+                continue
+            g = cx.graph(fn['key'], inline=False)
+            for x in g.nodes:
+                if x['kind'] != 'call' or not x['name'].startswith('std::sync::atomic::') or x['name'].rsplit('::', 1)[-1] not in _WRITERS or not x['args']:
+                    continue
+                root, steps = access_path(x['args'][0])
+                plain = [st for st in steps if not st.startswith(('@', '!', 'as ', '['))]
+                if not plain or plain[-1] != flag:
+                    continue
+                if cx.control != ('verif_controls' in fn['key']):
+                    continue
+                if not cx.control and 'complete_status' not in fn['file']:
+                    continue
+                n += 1
+                label = cx.label(fn)
+                if is_terminal(fn):
+                    res.append(Finding(ID, 'R8', label, True, 'terminal method (or a helper only they call) writes the flag', g.loc(x)))
+                    continue
+                tail = x['name'].rsplit('::', 1)[-1]
+                vexpr = x['args'][2] if tail.startswith('compare_exchange') and len(x['args']) > 2 else (x['args'][1] if len(x['args']) > 1 else None)
+                c = const_int(vexpr) if vexpr is not None else None
+                verdicts = {p: (_eval_pred(e, c) if c is not None else None) for p, e in pexpr.items()}
+                wrong = [p for p, v in verdicts.items() if v is True]
+                if wrong:
+                    res.append(Finding(ID, 'R8', label, False,
+                                       'writes %s into the status flag although the source has not terminated, and %s() reads that value as terminated: the status '
+                                       'reports completed/closed for a source that is still running' % (c, wrong[0]), g.loc(x), [node_desc(g, x)]))
+                else:
+                    res.append(Finding(ID, 'R8', label, True, 'non-terminal writer stores a value every predicate reads as running (or the value cannot be resolved statically)', g.loc(x)))
+    if not cx.control and n < 2:
+        res.append(Finding(ID, 'R8', 'floor', False, 'expected the two terminal writers of the status flag, found %d' % n))
     return res
